@@ -248,6 +248,9 @@ Arguments call : clear implicits.
 (* ---------------- executable instance and correspondence checks (K = Z, A = Q) ---------------- *)
 From Coq Require Import QArith.
 
+(* stands for float('inf') in recorded values: larger than every double; values are only copied and compared *)
+Definition INFQ : Q := Qmake (2 ^ 1100)%Z 1%positive.
+
 Definition qrow_eqb := list_eqb Qeqb.
 Definition qmat_eqb := list_eqb qrow_eqb.
 Definition ostr_eqb := option_eqb String.eqb.
